@@ -360,6 +360,17 @@ def run(tier, pid="C06"):
     rep.assume("not modelled: DocTestMatches, Warnings/WarningMessage/IsDeprecated, HasPermissions, SamePath, TarballContains, MatchesPredicateWithParams (other than HasLength)")
     rnd = random.Random(rep.seed)
     pool = mc.PathPool("c06")
+    # The stock matchers outside spec/match (doctest, warnings, SamePath/HasPermissions/TarballContains,
+    # MatchesPredicateWithParams) have their own TLA+ semantics in spec/extra (X12): part of "every stock matcher".
+    # That sub-check is independent of this driver, so it runs in a background thread (it collects into a Report of
+    # its own, merged below) while the pairs of spec/match are replayed here.
+    from concurrent.futures import ThreadPoolExecutor
+
+    from .common import run_subcheck
+
+    subrep = Report("C06", tier, "exploration", RULE)
+    subex = ThreadPoolExecutor(max_workers=1)
+    subfut = subex.submit(run_subcheck, subrep, "x12", "X12", tier, "x12")
     try:
         mc.check_greedy_counterexample(rep, "C06")
         global LIGHT
@@ -402,16 +413,20 @@ def run(tier, pid="C06"):
         phases["localise failures"] = round(time.time() - t0, 1)
     finally:
         pool.close()
+        subex.shutdown(wait=True)  # the sub-check redirects stdout while it runs: let it finish before anything is printed
+    subfut.result()  # a machinery failure of the sub-check is a machinery failure of this check
+    rep.evaluations += subrep.evaluations
+    rep.states += subrep.states
+    rep.transitions += subrep.transitions
+    rep.traces += subrep.traces
+    rep.tlc_runs += subrep.tlc_runs
+    rep.violations += subrep.violations
+    rep.known += subrep.known
     rep.exhaustive = False
     rep.extra["explanation"] = (
         "exhaustive over the expression/value spaces of the mt_mc*.cfg configs (bounds in spec/match/*.cfg and "
         "MCMatchers.tla); random for mt_sim.cfg and for the harness-generated rows decided by MatchersTrace.tla"
     )
-    # the stock matchers outside spec/match (doctest, warnings, SamePath/HasPermissions/TarballContains,
-    # MatchesPredicateWithParams) have their own TLA+ semantics in spec/extra (X12): part of "every stock matcher"
-    from .common import run_subcheck
-
-    run_subcheck(rep, "x12", "X12", tier, "x12")
     return rep.finish()
 
 
